@@ -127,7 +127,8 @@ def build(quick, seed, only_sid):
   # long strings: block sizes 1..70, scatter, singles
   for length in ([1000, 4093, 4096] if quick else [1000, 4093, 4096, 8191, 16384, 65536]):
     bits = tobits(rng.getrandbits(length), length)
-    bl = [1, 7, 8, 9, 16, 31, 32, 33, 64, 65, 70] if quick else list(range(1, 71))
+    # every block size up to 72 (each value around the machine-word sizes matters: the shift-and-mask path reads a window of bytes), then a sample
+    bl = (list(range(1, 73)) if (not quick or length == 1000) else [1, 7, 8, 9, 16, 31, 32, 33, 57, 59, 61, 62, 63, 64, 65, 70]) + [100, 127, 128, 129, 255, 257]
     recs += records_for(u, bits, 'L%d' % length, [1, 2, 5] if length <= 8191 else [3], bl, [1, 2, 7, 32, 33], subseq=False)
     runs = [0] * length
     for _ in range(20):
